@@ -7,7 +7,8 @@ import torch
 from . import wavelib as W
 
 TRUSTED = ['numpy.fft / torch.fft compute the DFT of OdakModel/Fourier.lean (validated through the pipeline correspondence)',
-           'zero_pad / crop_center enter through the C08 axis-map model (regenerated index expressions)']
+           'zero_pad / crop_center enter through the C08 axis-map model (regenerated index expressions)',
+           'kernels regenerated from the source and proved equal to the model kernels (see C01)']
 ASSUMPTIONS = ['dx >= lambda/sqrt(2); Fourier-domain padding excluded as the property says; band-limited: compared on the common band']
 
 
